@@ -877,7 +877,10 @@ func ruleRangeMergeIsUnion(w *core.World, r *core.Report) {
 		return
 	}
 	n := 0
-	for _, in := range core.OwnInstrs(f) {
+	// the widening may be a helper of its own (a method of the range): with one call site its stores are read as
+	// part of the insertion, under what holds at the call (core.Instrs, core.FactsAt); a helper with several
+	// call sites is not read and the merge is reported as not found
+	for _, in := range core.Instrs(f) {
 		st, ok := in.(*ssa.Store)
 		if !ok {
 			continue
